@@ -30,6 +30,7 @@ EXPLANATION = (
     "sides (matched by construction and use); (PURE) the pure-multiplication plan "
     "reshapes both operands to the full output rank; (AXES equation) the equation "
     "tensordot is translated into. "
+    'Round 7: (PERM) every function of contract.py is scanned, the map(x.index, y) spelling included. '
 )
 ASSUMPTIONS = ("matmul contracts the last axis of its first with the second-to-last axis of its "
                "second operand and broadcasts leading axes; transpose(x, p) puts source axis p[i] at i",)
